@@ -333,6 +333,7 @@ def decide(ctx: Ctx, proof: dict, rule: str, search=None, extra=None, assumption
         path = write_replay(ctx.pid, dict(property=ctx.pid, kind="monitor", key=f["key"], what=f["what"],
                                           case=f["case"], seed=ctx.seed, tier=ctx.tier,
                                           also=[dict(key=x["key"], what=x["what"]) for x in new[1:6]]))
+        print(f"DETAIL property={ctx.pid} key={f['key']} {str(f['what'])[:400]}")
         print(f"VIOLATION property={ctx.pid} replay={path}")
         status, violations = 1, len(new)
     elif broken:
@@ -340,6 +341,10 @@ def decide(ctx: Ctx, proof: dict, rule: str, search=None, extra=None, assumption
                        proof_failures=proof["failures"], proof_log=proof.get("log", ""),
                        disagreements=ctx.disagreements[:10])
         path = write_replay(ctx.pid, payload)
+        for pf in proof["failures"][:3]:
+            print(f"DETAIL property={ctx.pid} proof: {pf}")
+        for dg in ctx.disagreements[:2]:
+            print(f"DETAIL property={ctx.pid} correspondence {dg['function']}: model={str(dg['model'])[:150]} real={str(dg['real'])[:150]}")
         print(f"VIOLATION property={ctx.pid} replay={path} no-failing-input-found")
         status, violations = 1, 1
     write_evidence(ctx, proof, rule, extra=extra, violations=violations, assumptions=assumptions)
